@@ -325,7 +325,7 @@ func (ev *REval) eval(n *rn, a *ract, yh *yielder) rres {
 		}
 		return ok(r.v)
 	case "if", "ifelse":
-		c := ev.eval(n.kids[0], a, yh)
+		c := ev.evalCond(n.kids[0], a, yh)
 		if c.err != 0 || c.ret {
 			return c
 		}
@@ -342,7 +342,7 @@ func (ev *REval) eval(n *rn, a *ract, yh *yielder) rres {
 	case "while":
 		last := RNil
 		for {
-			c := ev.eval(n.kids[0], a, yh)
+			c := ev.evalCond(n.kids[0], a, yh)
 			if c.err != 0 || c.ret {
 				return c
 			}
@@ -394,6 +394,37 @@ func (ev *REval) eval(n *rn, a *ract, yh *yielder) rres {
 	}
 	vrt.Fail("reference: unsupported operation")
 	return rres{}
+}
+
+// ENilOrType: the language description does not say whether an absent value used as a (negated)
+// condition is a nil error or a type error; the reference accepts either.
+const ENilOrType = 100
+
+// SameClass compares an implementation error class with the reference's.
+func SameClass(impl, ref int) bool {
+	if ref == ENilOrType {
+		return impl == ENil || impl == EType
+	}
+	return impl == ref
+}
+
+// evalCond evaluates the condition of if/while. `!x` with x absent: see ENilOrType.
+func (ev *REval) evalCond(n *rn, a *ract, yh *yielder) rres {
+	if n.op == "un" && n.s == "!" {
+		x := ev.eval(n.kids[0], a, yh)
+		if x.err != 0 || x.ret {
+			return x
+		}
+		if x.v.K == rNil {
+			return fail(ENilOrType)
+		}
+		return run("!", x.v)
+	}
+	c := ev.eval(n, a, yh)
+	if c.err == 0 && !c.ret && c.v.K == rNil {
+		return fail(ENilOrType)
+	}
+	return c
 }
 
 func bind(n *rn, a *ract, ev *REval, name string, v RV) {
